@@ -180,6 +180,7 @@ func c06(r *ev.Run) {
 	runAPIPart(r, "policy-race", true, []string{"proc/internal/lb/lb.go"}, 10*time.Minute)
 	c06EndToEnd(r)
 	c06HealthCheckToggled(r)
+	c06ConfigUpdateAndFlapping(r)
 	r.Require("least_connection_sample_pairs_judged", 1000)
 	r.Require("settled_bursts_judged", 20)
 	r.Require("connections_closed_on_host_removal", 3)
@@ -661,4 +662,174 @@ func c06HealthCheckToggled(r *ev.Run) {
 		r.Case("hc-toggled")
 	}
 	r.Require("health_check_toggles", 2)
+}
+
+// c06ConfigUpdateAndFlapping: (1) round robin keeps its place across a configuration update that does not change the policy: every
+// window of n consecutive selections over n unchanged hosts names each host once, also a window that spans the update; (2) the only
+// host of a service is removed and added again in a loop while connections keep arriving: each connection is served or closed, and
+// the process survives (a selection must never act on "a host is available" and then find none).
+func c06ConfigUpdateAndFlapping(r *ev.Run) {
+	s, err := startSUT(r, false, 0, 0)
+	if err != nil {
+		r.Internal("start sut: %v", err)
+		return
+	}
+	defer s.Close()
+	rnd := rand.New(rand.NewSource(r.Seed + 66))
+	// ---- (1)
+	reps := 4
+	if r.Tier == "thorough" {
+		reps = 30
+	}
+	for rep := 0; rep < reps; rep++ {
+		n := 2 + rnd.Intn(4)
+		var mu sync.Mutex
+		var seq []int
+		var bes []*tcpsim.Backend
+		var hosts []sutc.Host
+		for i := 0; i < n; i++ {
+			i := i
+			b, err := tcpsim.NewBackend(func(_ *tcpsim.Backend, c net.Conn) {
+				defer c.Close()
+				buf := make([]byte, 4)
+				c.SetReadDeadline(time.Now().Add(5 * time.Second))
+				if _, err := io.ReadFull(c, buf); err != nil || string(buf) != "REQ!" {
+					return // the listener probe of the harness
+				}
+				mu.Lock()
+				seq = append(seq, i)
+				mu.Unlock()
+				c.Write([]byte("ok"))
+			})
+			if err != nil {
+				r.Internal("backend: %v", err)
+				return
+			}
+			defer b.Close()
+			bes = append(bes, b)
+			hosts = append(hosts, sutc.Host{Addr: b.Addr})
+		}
+		opts := TCPOpts{Policy: service.LoadBalancePolicy_ROUND_ROBIN, ConnTimeout: time.Second}
+		svc, err := startTCPSvc(s, hosts, opts)
+		if err != nil {
+			r.Internal("%v", err)
+			return
+		}
+		one := func() bool {
+			c, err := net.DialTimeout("tcp", svc.Addr, 2*time.Second)
+			if err != nil {
+				return false
+			}
+			defer c.Close()
+			c.SetDeadline(time.Now().Add(3 * time.Second))
+			c.Write([]byte("REQ!"))
+			buf := make([]byte, 2)
+			_, err = io.ReadFull(c, buf)
+			return err == nil
+		}
+		before := 1 + rnd.Intn(2*n)
+		okAll := true
+		for i := 0; i < before; i++ {
+			okAll = one() && okAll
+		}
+		opts.ConnTimeout = time.Duration(1500+rnd.Intn(1000)) * time.Millisecond // anything but the policy
+		if err := s.ConfigUpdate(svc.Name, tcpConfigJSON(svc.Port, opts)); err != nil {
+			r.Internal("config update: %v", err)
+			return
+		}
+		for i := 0; i < 2*n+1; i++ {
+			okAll = one() && okAll
+		}
+		mu.Lock()
+		got := append([]int{}, seq...)
+		mu.Unlock()
+		w := map[string]interface{}{"hosts": n, "selections": got, "configuration_update_after_selection": before, "changed": "connect timeout only"}
+		if !okAll || len(got) != before+2*n+1 {
+			r.Violation("C06:connection-not-served:config-update", "a connection was not served around a configuration update", w)
+		} else {
+			for i := 0; i+n <= len(got); i++ {
+				seen := map[int]bool{}
+				for _, h := range got[i : i+n] {
+					seen[h] = true
+				}
+				if len(seen) != n {
+					w["window_starts_at"] = i
+					r.Violation("C06:round-robin-uneven:across-config-update", fmt.Sprintf("a window of %d consecutive round-robin selections over %d unchanged hosts does not name each host once", n, n), w)
+					break
+				}
+			}
+		}
+		r.Count("round_robin_windows_across_config_update", 1)
+		r.Case(fmt.Sprintf("rr-config-update/n%d", n))
+		s.StopProc(svc.Name, 10*time.Second)
+	}
+	// ---- (2)
+	b, err := tcpsim.NewBackend(nil)
+	if err != nil {
+		r.Internal("backend: %v", err)
+		return
+	}
+	defer b.Close()
+	svc, err := startTCPSvc(s, []sutc.Host{{Addr: b.Addr}}, TCPOpts{})
+	if err != nil {
+		r.Internal("%v", err)
+		return
+	}
+	stop := make(chan struct{})
+	var served, closed int64
+	var wg sync.WaitGroup
+	for g := 0; g < 32; g++ {
+		wg.Add(1)
+		go func() {
+			defer wg.Done()
+			for {
+				select {
+				case <-stop:
+					return
+				default:
+				}
+				c, err := net.DialTimeout("tcp", svc.Addr, time.Second)
+				if err != nil {
+					time.Sleep(time.Millisecond)
+					continue
+				}
+				c.SetDeadline(time.Now().Add(2 * time.Second))
+				c.Write([]byte("x"))
+				buf := make([]byte, 1)
+				if n, _ := c.Read(buf); n == 1 {
+					atomic.AddInt64(&served, 1)
+				} else {
+					atomic.AddInt64(&closed, 1)
+				}
+				c.Close()
+			}
+		}()
+	}
+	// flaps until enough connections have met them (bounded by a number of flaps, not by time)
+	wantConns := int64(60000)
+	maxFlaps := 40000
+	if r.Tier == "thorough" {
+		wantConns, maxFlaps = 600000, 400000
+	}
+	hs := []sutc.Host{{Addr: b.Addr}}
+	flaps := 0
+	for ; flaps < maxFlaps && atomic.LoadInt64(&served)+atomic.LoadInt64(&closed) < wantConns && s.Alive(); flaps++ {
+		s.HostOp("host_remove", svc.Name, hs)
+		s.HostOp("host_add", svc.Name, hs)
+		if flaps%7 == 0 {
+			time.Sleep(time.Duration(rnd.Intn(200)) * time.Microsecond)
+		}
+	}
+	close(stop)
+	wg.Wait()
+	if sutDied(r, s, map[string]interface{}{"scenario": "the only host of a tcp service removed and added in a loop under arriving connections", "flaps": flaps}) {
+		return
+	}
+	r.Count("last_host_flaps", int64(flaps))
+	r.Count("connections_served_while_flapping", atomic.LoadInt64(&served))
+	r.Count("connections_closed_while_flapping", atomic.LoadInt64(&closed))
+	r.Case("last-host-flapping")
+	s.StopProc(svc.Name, 10*time.Second)
+	r.Require("connections_served_while_flapping", 20)
+	r.Require("connections_closed_while_flapping", 1)
 }
